@@ -107,11 +107,14 @@ fn lambert_w(x: Decimal) -> Option<Decimal> {
 fn ilog(n: Decimal, b: Decimal) -> Option<Decimal> {
     let mut n = n;
     let mut x = Decimal::ZERO;
-    while n > Decimal::new(1, 0) {
+    for _ in 0..64 {
+        if n <= Decimal::new(1, 0) {
+            return Some(x);
+        }
         x = x.checked_add(Decimal::new(1, 0))?;
         n = n.checked_log10()?.checked_div(b.checked_log10()?)?.floor();
     }
-    Some(x)
+    None
 }
 
 pub fn eval(expr: Node) -> Result<Decimal, Box<dyn error::Error>> {
